@@ -436,7 +436,16 @@ def gate_case(res, vals, ventry, ops, max_size, lines, impl_out, case):
             fl, _, _ = facts_line(canon, value, ev_obj, schema, types)
             lines.append(f'add {w} {eid} {ts} {fl}')
             try:
-                r.add_data(obj)
+                # complex / action events also come in through the feedback entry points of the receiver
+                # (producer -> receiver, forwarder -> receiver): same gate, same queue bound
+                if w == 'c' and (nev % 2 == 0):
+                    r.on_producer_update(obj, True)
+                    res.count('gate_feedback_producer')
+                elif w == 'a' and (nev % 2 == 0):
+                    r.on_forwarder_update(obj)
+                    res.count('gate_feedback_forwarder')
+                else:
+                    r.add_data(obj)
                 impl_out.append('ok')
                 if not closed:
                     queued.append((obj, value, w))
